@@ -8,25 +8,26 @@
 EXTENDS ReplDiff, SequencesExt, Json
 
 CONSTANTS
-  Kind,        \* "acl" | "config" | "fed"
+  Kinds,       \* subset of {"acl", "config", "fed"}
   Ids,         \* identifiers of replicated objects (non-zero integers)
   Cs,          \* contents
   LegacyCs,    \* contents of legacy entries
   Mis,         \* modify indexes in the primary
   Lasts,       \* lastRemoteIndex values
-  MaxLegacyL,  \* number of legacy (empty id) entries in the local listing: 0..MaxLegacyL
+  MaxLegacyL,  \* number of legacy (empty id) entries in the local listing: 0..MaxLegacyL (kind acl only)
   MaxLegacyR,  \* same for the remote listing
-  LoIds,       \* identifiers that may carry a local-only object in the secondary
-  Unhashed,    \* TRUE: stored objects may lack a hash (h = 0)
+  LoIds,       \* identifiers that may carry a local-only object in the secondary (kind acl only)
+  Unhashed,    \* TRUE: stored config entries may lack a hash (h = 0)
   Perms        \* TRUE: every arrival order of both listings; FALSE: one arbitrary order
 
 VARIABLE st
 
-HChoices(c) == IF Unhashed THEN {c, 0} ELSE {c}
-LSlot == {[p |-> FALSE, c |-> 0, h |-> 0]} \cup {[p |-> TRUE, c |-> c, h |-> h] : c \in Cs, h \in UNION {HChoices(x) : x \in Cs}}
-RSlot == {[p |-> FALSE, c |-> 0, h |-> 0, mi |-> 0]}
-         \cup {[p |-> TRUE, c |-> c, h |-> h, mi |-> mi] : c \in Cs, h \in UNION {HChoices(x) : x \in Cs}, mi \in Mis}
-SlotOK(x) == ~x.p \/ x.h \in HChoices(x.c)
+HChoices(kind, c) == IF kind = "fed" THEN {0} ELSE IF Unhashed /\ kind = "config" THEN {c, 0} ELSE {c}
+AllH == Cs \cup {0}
+LSlot(kind) == {[p |-> FALSE, c |-> 0, h |-> 0]}
+               \cup {x \in {[p |-> TRUE, c |-> c, h |-> h] : c \in Cs, h \in AllH} : x.h \in HChoices(kind, x.c)}
+RSlot(kind) == {[p |-> FALSE, c |-> 0, h |-> 0, mi |-> 0]}
+               \cup {x \in {[p |-> TRUE, c |-> c, h |-> h, mi |-> mi] : c \in Cs, h \in AllH, mi \in Mis} : x.h \in HChoices(kind, x.c)}
 
 Obj(i, mi, c, h, lo) == [id |-> i, mi |-> mi, c |-> c, h |-> h, lo |-> lo]
 LegacyObjs == {Obj(0, mi, c, c, FALSE) : c \in LegacyCs, mi \in {CHOOSE m \in Mis : \A n \in Mis : m >= n}}
@@ -34,19 +35,21 @@ Upto(S, n) == {T \in SUBSET S : Cardinality(T) <= n}
 Orders(S) == IF Perms THEN SetToSeqs(S) ELSE {SetToSeq(S)}
 
 \* per identifier: a (local slot, remote slot) pair that satisfies Consistent for this lastRemoteIndex
-PairSlots(last) ==
-  {pr \in {x \in LSlot : SlotOK(x)} \X {x \in RSlot : SlotOK(x)} :
-      (pr[1].p /\ pr[2].p /\ pr[2].mi <= last) => pr[1].c = pr[2].c}
+PairSlots(kind, last) ==
+  {pr \in LSlot(kind) \X RSlot(kind) : (pr[1].p /\ pr[2].p /\ pr[2].mi <= last) => pr[1].c = pr[2].c}
 
 Init ==
-  \E last \in Lasts :
-  \E f \in [Ids -> PairSlots(last)],
-     ll \in Upto(LegacyObjs, MaxLegacyL), lr \in Upto(LegacyObjs, MaxLegacyR), los \in SUBSET LoIds :
+  \E kind \in Kinds, last \in Lasts :
+  \E f \in [Ids -> PairSlots(kind, last)],
+     ll \in Upto(LegacyObjs, IF kind = "acl" THEN MaxLegacyL ELSE 0),
+     lr \in Upto(LegacyObjs, IF kind = "acl" THEN MaxLegacyR ELSE 0),
+     los \in SUBSET (IF kind = "acl" THEN LoIds ELSE {}) :
     LET repl == {Obj(i, 1, f[i][1].c, f[i][1].h, FALSE) : i \in {j \in Ids : f[j][1].p}}
         rem  == {Obj(i, f[i][2].mi, f[i][2].c, f[i][2].h, FALSE) : i \in {j \in Ids : f[j][2].p}}
         lo   == {Obj(i, 1, 1, 1, TRUE) : i \in los}
-    IN \E inL \in Orders(repl \cup ll), inR \in Orders(rem \cup lr) :
-         st = InitState(Kind, repl \cup lo, inL, inR, last)
+    IN /\ \A i \in los : i \notin {o.id : o \in repl \cup rem}      \* identifiers of local-only objects are fresh
+       /\ \E inL \in Orders(repl \cup ll), inR \in Orders(rem \cup lr) :
+            st = InitState(kind, repl \cup lo, inL, inR, last)
 
 Next == st.pc # "done" /\ st' = Step(st)
 Terminated == st.pc = "done" /\ UNCHANGED st
